@@ -217,7 +217,7 @@ loop:
 			if i+3 >= n {
 				return -1, xerr.Wrap("host", ErrInvalidSetting)
 			}
-			if v := (int(c[i+2]) | int(c[i+1])<<8) + i; v > n || v < i {
+			if v := (int(c[i+2]) | int(c[i+1])<<8) + i; v+3 > n || v < i {
 				return -1, xerr.Wrap("host", ErrInvalidSetting)
 			}
 		case valSleep:
@@ -346,7 +346,7 @@ loop:
 			if i+3 >= n {
 				return -1, xerr.Wrap("xor", ErrInvalidSetting)
 			}
-			if k := (int(c[i+2]) | int(c[i+1])<<8) + i; k > n || k < i {
+			if k := (int(c[i+2]) | int(c[i+1])<<8) + i; k+3 > n || k < i {
 				return -1, xerr.Wrap("xor", ErrInvalidSetting)
 			}
 		case valCBK:
@@ -425,7 +425,7 @@ loop:
 				return nil, -1, 0, xerr.Wrap("host", ErrInvalidSetting)
 			}
 			v := (int(c[i+2]) | int(c[i+1])<<8) + i
-			if v > n || v < i {
+			if v+3 > n || v < i {
 				return nil, -1, 0, xerr.Wrap("host", ErrInvalidSetting)
 			}
 			p.hosts = append(p.hosts, string(c[i+3:v+3]))
@@ -650,7 +650,7 @@ loop:
 				return nil, -1, 0, xerr.Wrap("xor", ErrInvalidSetting)
 			}
 			k := (int(c[i+2]) | int(c[i+1])<<8) + i
-			if k > n || k < i {
+			if k+3 > n || k < i {
 				return nil, -1, 0, xerr.Wrap("xor", ErrInvalidSetting)
 			}
 			w = append(w, wrapper.NewXOR(c[i+3:k+3]))
